@@ -44,7 +44,7 @@ Ltac step_inv H :=
     destruct l as [k|t choice|wc|cc|lb]; cbn [stepf] in H;
     [ destruct (is_async k) eqn:Hka; [discriminate H|]; inv_some
     | destruct (threads s t) as [th|] eqn:Hth; [|discriminate H];
-      unfold step_thread in H; destruct (t_pc th) as [| | | | | | | | | | | | | | | | | |left| | | | | | | |left| | | | | |r] eqn:Hpc;
+      unfold step_thread in H; destruct (t_pc th) as [| | | | | | | | | | | | | | | | | | |left| | | | | | | |left| | | | | |r] eqn:Hpc;
       repeat match type of H with
       | context [match once s with _ => _ end] => destruct (once s) eqn:Honce
       | context [match cstep ?c ?lb with _ => _ end] => destruct (cstep c lb) eqn:Hcs
@@ -54,6 +54,7 @@ Ltac step_inv H :=
       | context [if watch_done s then _ else _] => destruct (watch_done s) eqn:Hwd
       | context [if fx then _ else _] => destruct fx
       | context [match d_pc ?c with _ => _ end] => destruct (d_pc c) eqn:Hdpc
+      | context [match ic_pc s with _ => _ end] => destruct (ic_pc s) eqn:Hicp
       | context [if exp_closed s then _ else _] => destruct (exp_closed s) eqn:Hec
       | context [match left with _ => _ end] => destruct left as [|left]
       | context [match choice with _ => _ end] => destruct choice as [|choice]
@@ -100,13 +101,13 @@ Qed.
 Definition closer_body (p : pc) : bool :=
   match p with
   | CClosing | CLock | CSet | CUnlock | CWaitExp | CRecvClose | CWaitWatch | CWaitAsync
-  | CCloseIn | CWaitDist | CPeerstore | COnceDone => true
+  | CCloseIn | CWaitDist | CWaitIC | CPeerstore | COnceDone => true
   | _ => false
   end.
 Definition stage_of (p : pc) : nat :=
   match p with
   | CClosing => 1 | CLock => 2 | CSet => 3 | CUnlock => 4 | CWaitExp => 5 | CRecvClose => 6
-  | CWaitWatch => 7 | CWaitAsync => 8 | CCloseIn => 9 | CWaitDist => 10 | CPeerstore => 11 | COnceDone => 11
+  | CWaitWatch => 7 | CWaitAsync => 8 | CCloseIn => 9 | CWaitDist => 10 | CWaitIC => 11 | CPeerstore => 12 | COnceDone => 12
   | _ => 0
   end.
 Definition is_runner (o : once_st) (t : nat) : bool := match o with ORunning r => Nat.eqb r t | _ => false end.
@@ -119,8 +120,8 @@ Definition Inv1 (s : st) : Prop :=
   (forall t th, threads s t = Some th -> tinv1 s t th = true) /\
   match once s with
   | ONot => stage s = 0
-  | ORunning r => 1 <= stage s <= 11 /\ exists th, threads s r = Some th /\ closer_body (t_pc th) = true
-  | ODone => stage s = 12
+  | ORunning r => 1 <= stage s <= 12 /\ exists th, threads s r = Some th /\ closer_body (t_pc th) = true
+  | ODone => stage s = 13
   end.
 
 Lemma inv1_init r cap : Inv1 (init r cap).
@@ -339,7 +340,8 @@ Definition Inv3 (fx : bool) (s : st) : Prop :=
   (closing (co s) = true <-> 2 <= stage s) /\
   (in_closed (co s) = true <-> 10 <= stage s) /\
   p_env (co s) = false /\
-  (fx = true -> 11 <= stage s -> d_pc (co s) = DDone).
+  (fx = true -> 11 <= stage s -> d_pc (co s) = DDone) /\
+  (fx = true -> 12 <= stage s -> ic_pc s = ICEnd).
 
 Lemma inv3_init fx r cap : Inv3 fx (init r cap).
 Proof.
@@ -371,7 +373,7 @@ Proof.
   specialize (H t). rewrite Ht in H. apply negb_true_iff. apply H. apply in_seq. lia.
 Qed.
 
-Ltac split10 := split; [|split; [|split; [|split; [|split; [|split; [|split; [|split; [|split]]]]]]]].
+Ltac split10 := split; [|split; [|split; [|split; [|split; [|split; [|split; [|split; [|split; [|split]]]]]]]]].
 
 (* compute comparisons between numerals *)
 Ltac leb_compute :=
@@ -399,7 +401,7 @@ Ltac th3_self K1 Hth Hpc :=
 
 Lemma inv3_step fx s l s' : Inv1 s -> Inv2 s -> Inv3 fx s -> stepf fx s l = Some s' -> Inv3 fx s'.
 Proof.
-  intros (I1 & I2 & I3) (J1 & J2 & J3) (K1 & K2 & K3 & K4 & K5 & K6 & K7 & K8 & K9 & K10) H.
+  intros (I1 & I2 & I3) (J1 & J2 & J3) (K1 & K2 & K3 & K4 & K5 & K6 & K7 & K8 & K9 & K10 & K11) H.
   step_inv H; unfold Inv3; asimp; split10.
   all: try assumption.
   (* threads, for steps that leave stage / once / has_recv alone *)
@@ -414,7 +416,7 @@ Proof.
   all: try (intros; first
        [ lia | congruence | reflexivity
        | apply K2; [lia|assumption] | apply K3; [lia|assumption]
-       | apply K10; [assumption|lia] ]; fail).
+       | apply K10; [assumption|lia] | apply K11; [assumption|lia] ]; fail).
   all: try (split; intro Hx; first [lia | apply K7; lia | (apply K7 in Hx; lia) | apply K8; lia | (apply K8 in Hx; lia)]; fail).
   (* runner steps, thread part *)
   all: try (intros t0 th0 Ht0; apply updt_cases in Ht0; destruct Ht0 as [[-> ->]|[Hne Ht0]];
@@ -506,6 +508,9 @@ Proof.
     unfold tinv3, exp_active, async_active; asimp.
     assert (E9 : (9 <=? stage s) = false) by (apply Nat.leb_gt; lia). rewrite E9. cbn.
     destruct (6 <=? stage s); reflexivity.
+  - (* the cleaner cannot be ticking once doClose has seen it exit *)
+    intros Hf Hx. specialize (K11 Hf Hx). discriminate K11.
+  - intros Hf Hx. specialize (K11 Hf Hx). discriminate K11.
 Qed.
 
 Theorem inv3_reach fx r cap s : reach fx r cap s -> Inv3 fx s.
